@@ -39,6 +39,13 @@ for it in items:
     res["harness_errors"] = broken
     res["expected"] = it["expected"]
     res["expected_missed"] = [p for p in it["expected"] if p not in caught]
+    # several matrix processes (one per lab) may run side by side: merge into the file
+    try:
+        results = json.load(open(out))
+    except Exception:
+        results = {}
     results[it["name"]] = res
-    json.dump(results, open(out, "w"), indent=1)
+    tmp = out + ".tmp%d" % os.getpid()
+    json.dump(results, open(tmp, "w"), indent=1)
+    os.replace(tmp, out)
     print(it["name"], "tests:", res["tests"], "caught by:", caught, "MISSED expected:" if res["expected_missed"] else "", res["expected_missed"] or "", "HARNESS-ERR:" + str(broken) if broken else "", flush=True)
